@@ -45,8 +45,12 @@ def _optimize_operator_call_attr(  # pylint: disable=too-many-return-statements
     emitted by the Python compiler and take advantage of any additional performance
     improvements in future versions of Python.
 
-    Calls which do not have the arity of the operator function are left untouched: they
-    fail when (and only when) they are executed, exactly as without optimization."""
+    Calls which do not have the arity of the operator function or which pass keyword
+    arguments are left untouched: they fail when (and only when) they are executed,
+    exactly as without optimization."""
+    if node.keywords:
+        return node
+
     if isinstance(fn.value, ast.Name) and fn.value.id == OPERATOR_ALIAS:
         binop = {
             "add": ast.Add,
